@@ -201,6 +201,33 @@ func Laws(r *vh.Rng, in Inst, rep *vh.Report, n int) {
 				check("result-of-"+mk.name+"-after-overwriting-operand", res3, keepR, ops())
 				_ = res2
 			}
+			// the efficient endomorphism of j = 0 curves: P, lambda*P and lambda^2*P share a
+			// coordinate; sums of such related points must still be ordinary sums
+			if lam := cubeRoot(q); lam != nil {
+				sl := MkScalar(g, lam)
+				l2 := new(big.Int).Mul(lam, lam)
+				l2.Mod(l2, q)
+				sl2 := MkScalar(g, l2)
+				lP, l2P := np().Mul(sl, P), np().Mul(sl2, P)
+				check("sum-of-endomorphism-related-points", np().Add(P, lP), np().Mul(g.Scalar().Add(g.Scalar().One(), sl), P), ops())
+				check("sum-of-endomorphism-related-points-2", np().Add(lP, l2P), np().Neg(P), ops())
+				check("sub-of-endomorphism-related-points", np().Sub(P, l2P), np().Mul(g.Scalar().Sub(g.Scalar().One(), sl2), P), ops())
+				check("endomorphism-orbit-sums-to-identity", np().Add(np().Add(P, lP), l2P), O, ops())
+				// multiples of the eigenvalue as multipliers (split-multiplier edges)
+				for j := int64(1); j <= 6; j++ {
+					for d := int64(0); d <= 1; d++ {
+						k := new(big.Int).Mul(lam, big.NewInt(j))
+						k.Add(k, big.NewInt(d)).Mod(k, q)
+						want := np().Mul(MkScalar(g, big.NewInt(j)), lP)
+						if d == 1 {
+							want = np().Add(want, P)
+						}
+						o := ops()
+						o["k"] = fmt.Sprintf("%d*lambda+%d", j, d)
+						check("mul-by-multiple-of-eigenvalue", np().Mul(MkScalar(g, k), P), want, o)
+					}
+				}
+			}
 			// scalar constants likewise
 			one := g.Scalar().One()
 			one.Add(one, sa)
@@ -261,6 +288,48 @@ func PairingLaws(r *vh.Rng, ps PSuite, rep *vh.Report, n int) {
 			check("additive-right", s.Pair(P, s.G2().Point().Add(Q, Q2)), gt.Point().Add(s.Pair(P, Q), s.Pair(P, Q2)), ops())
 			check("identity-left", s.Pair(s.G1().Point().Null(), Q), gt.Point().Null(), ops())
 			check("identity-right", s.Pair(P, s.G2().Point().Null()), gt.Point().Null(), ops())
+			// negation: e(P,-Q) = e(-P,Q) = e(P,Q)^-1, with -Q built every way (fresh receiver,
+			// 0 - Q, in place, (q-1)Q) from Q in its affine (decoded) and in its computed form,
+			// each pairing right after the pairing of the point itself
+			{
+				negE := gt.Point().Neg(e)
+				qm1 := MkScalar(s.G2(), new(big.Int).Sub(q, big.NewInt(1)))
+				for side := 0; side < 2; side++ {
+					grp := []kyber.Group{s.G1(), s.G2()}[side]
+					orig := []kyber.Point{P, Q}[side]
+					forms := []kyber.Point{orig}
+					if bb, err := orig.MarshalBinary(); err == nil {
+						c := grp.Point()
+						if c.UnmarshalBinary(bb) == nil {
+							forms = append(forms, c)
+						}
+					}
+					for fi, f := range forms {
+						negs := map[string]kyber.Point{
+							"Neg-into-fresh":   grp.Point().Neg(f),
+							"Neg-into-used":    grp.Point().Base().Neg(f),
+							"Sub(Null,.)":      grp.Point().Sub(grp.Point().Null(), f),
+							"Neg-in-place":     func() kyber.Point { c := f.Clone(); return c.Neg(c) }(),
+							"Mul(q-1,.)":       grp.Point().Mul(qm1, f),
+							"Neg(Neg(Neg(.)))": grp.Point().Neg(grp.Point().Neg(grp.Point().Neg(f))),
+						}
+						for how, nf := range negs {
+							var got kyber.Point
+							if side == 0 {
+								_ = s.Pair(f, Q)
+								got = s.Pair(nf, Q)
+							} else {
+								_ = s.Pair(P, f)
+								got = s.Pair(P, nf)
+							}
+							o := ops()
+							o["negated"], o["how"], o["form"] = []string{"G1 argument", "G2 argument"}[side], how, []string{"as built", "decoded (affine)"}[fi]
+							check("pair-of-negated-point", got, negE, o)
+						}
+					}
+				}
+				check("pair-product-with-negated-is-one", gt.Point().Add(s.Pair(P, Q), s.Pair(P, s.G2().Point().Neg(Q))), gt.Point().Null(), ops())
+			}
 			// a pairing result is an object of its own: overwriting it changes no later result
 			for _, pq := range [][2]kyber.Point{{P, Q}, {s.G1().Point().Null(), Q}, {P, s.G2().Point().Null()}} {
 				e1 := s.Pair(pq[0], pq[1])
